@@ -135,7 +135,7 @@ Definition cost_bound (m : machine) (o : op) : nat :=
   | OPeek r SMax | OPeekMut r SMax _ => 1
   | OPeek _ SMin | OPeekMut _ SMin _ => 0
   | OLen _ | OIsEmpty _ | OGet _ _ | OGetPrio _ _ | OGetMut _ _ _ | OCapacity _
-  | OReserve _ _ | OTryReserve _ _ | OShrink _ | OClear _ | OIntoVec _ | OClone _ _
+  | OReserve _ _ | OTryReserve _ _ | OShrink _ | OClear _ | OIntoVec _ | OClone _ _ | OCloneFrom _ _
   | OEq _ _ | ONew _ _ | OWithCap _ _ _ | OIter _ _ _ _ | OIntoIter _ _ _ _ | ODrain _ _ _ _ => 0
   | OFromVec _ _ l | OFromIter _ _ l _ | ODeser _ _ l => 16 * length l
   | ORetain r _ | OIterMut r _ _ _ | OConvert r => 16 * reg_size m r
